@@ -75,7 +75,9 @@ def main():
     # password pool: every entry in NFC and NFD spelling with its NFKD form (expected KDF password)
     pool = ["", "password", "correct horse battery staple", "pässwörd", "contraseña",
             "mot de passe très sécurisé", "пароль", "密碼", "パスワード", "암호문",
-            "ﬁancé №5", "Ω≈ç√∫˜µ≤≥÷", "ạ́b", "ṩ̣̇", "㌀㍿", "½ ² ℌ"]
+            "ﬁancé №5", "Ω≈ç√∫˜µ≤≥÷", "ạ́b", "ṩ̣̇", "㌀㍿", "½ ² ℌ",
+            # capitals, digits, punctuation: normalisation is not case folding
+            "Correct Horse Battery Staple", "PIN-2024-XYZ", "Ünïcödé Ǆ ﬁ Å", "ÀÉÎÕÜ ÇA VA"]
     pw = []
     for s in pool:
         pw.append({
